@@ -68,6 +68,37 @@ fn c02_history_same_shape() {
     c02_history(env, a, b);
     kani::cover!(true, "VERIF:reach:history explored");
 }
+// HARNESS props=C02 tier=quick profile=gw_hist1 shape="approve A = (chain 1 byte, id 2 bytes); observe B = (chain 2 bytes, id 1 byte) with the same three characters: B is unknown; then approve B: it becomes approved with its own event and A is untouched"
+#[kani::proof]
+#[kani::stub(crate::auth::validate_proof, stub_validate_proof)]
+fn c02_split_ids_distinct() {
+    let env = Env::default();
+    any::auths();
+    let a = msg_exact(1, 2);
+    let b = msg_exact(2, 1);
+    // the same characters, split differently between chain and id
+    kani::assume(a.source_chain.d[0] == b.source_chain.d[0]);
+    kani::assume(a.message_id.d[0] == b.source_chain.d[1]);
+    kani::assume(a.message_id.d[1] == b.message_id.d[0]);
+    let proof = empty_proof(&env);
+    let r1 = model::with_contract(&gw(), || <AxelarGateway as AxelarGatewayInterface>::approve_messages(env.clone(), Vec::from_array(&env, [a.clone()]), proof.clone()));
+    kani::assume(r1.is_ok());
+    let (b_appr, b_exec) = model::with_contract(&gw(), || {
+        (
+            <AxelarGateway as AxelarGatewayMessagingInterface>::is_message_approved(env.clone(), b.source_chain.clone(), b.message_id.clone(), b.source_address.clone(), b.contract_address.clone(), b.payload_hash.clone()),
+            <AxelarGateway as AxelarGatewayMessagingInterface>::is_message_executed(env.clone(), b.source_chain.clone(), b.message_id.clone()),
+        )
+    });
+    kani::assert(!b_appr && !b_exec, "VERIF:C02:ids that differ only in how the same characters are split between chain and id are distinct messages");
+    let e0 = model::events_len();
+    let r2 = model::with_contract(&gw(), || <AxelarGateway as AxelarGatewayInterface>::approve_messages(env.clone(), Vec::from_array(&env, [b.clone()]), proof.clone()));
+    kani::assume(r2.is_ok());
+    let b_appr2 = model::with_contract(&gw(), || {
+        <AxelarGateway as AxelarGatewayMessagingInterface>::is_message_approved(env.clone(), b.source_chain.clone(), b.message_id.clone(), b.source_address.clone(), b.contract_address.clone(), b.payload_hash.clone())
+    });
+    kani::assert(b_appr2 && model::events_len() == e0 + 1, "VERIF:C02:a fresh id becomes approved with one event, whatever other ids exist");
+    kani::cover!(true, "VERIF:reach:split pair explored");
+}
 fn c02_history(env: Env, a: Message, b: Message) {
     any::auths();
     let proof = empty_proof(&env);
